@@ -33,6 +33,26 @@ Theorem C13_monitor_sound : forall head t,
 Proof. exact monitor_sound. Qed.
 Print Assumptions C13_monitor_sound.
 
+(* ... and complete: the monitor accepts EXACTLY the traces of the conforming shape - zero-length byte
+   chunks, one well-formed start_response, byte chunks (only zero-length ones for HEAD), one close at the end -
+   so a trace it rejects is a protocol violation, never an artefact of the monitor *)
+Theorem C13_monitor_exact : forall head t, monitor head t = true <-> conforming head t.
+Proof. exact monitor_exact. Qed.
+Print Assumptions C13_monitor_exact.
+
+Example C13_conforming_nonvacuous :
+  conforming false [EChunk 0 true; EStart true true; EChunk 5 true; EChunk 0 true; EClose] /\
+  conforming true [EStart true true; EChunk 0 true; EClose] /\
+  monitor true [EStart true true; EChunk 3 true; EClose] = false.
+Proof.
+  split; [|split; [|reflexivity]].
+  - exists [EChunk 0 true], [EChunk 5 true; EChunk 0 true]. split; [reflexivity|]. split.
+    + repeat constructor.
+    + repeat constructor; [exists 5|exists 0]; (split; [reflexivity|discriminate]).
+  - exists [], [EChunk 0 true]. split; [reflexivity|]. split; [constructor|].
+    repeat constructor. exists 0. split; reflexivity.
+Qed.
+
 Example C13_example :
   wrapper_sequence [[mk_wsmw 1 0 true; mk_wsmw 2 1 false; mk_wsmw 3 2 true; mk_wsmw 9 7 true];
                     [mk_wsmw 1 0 true; mk_wsmw 2 1 false; mk_wsmw 3 2 true; mk_wsmw 4 0 true]] true
